@@ -65,6 +65,7 @@ func stopScenarios(c *core.Ctx, hidx int, planLen, ntx int, reps int) []stopScn 
 			add(faultSpec{Kind: "handler-err-cancel", At: j, Lock: lock})
 		}
 		add(faultSpec{Kind: "cancel-blocked", At: j})
+		add(faultSpec{Kind: "cancel-late-packet", At: j})
 		// the master ends the stream (FIN / RST / ERR / EOF) while the handler is blocked
 		for _, k := range []string{"fin-blocked", "rst-blocked", "err-blocked", "eof-blocked"} {
 			f := faultSpec{Kind: k, At: j}
@@ -165,6 +166,63 @@ func runStop(c *core.Ctx, s *run.Session, l *hist.Layout, start hist.Pos, scn st
 		}
 		ob.Reader = state
 		s.Cancel()
+		s.ReleaseHandler()
+		ob.Res = rn.Wait(maxWait)
+		finishObs(s, ob, o)
+		return ob
+	case "cancel-late-packet":
+		// the handler blocks at transaction j while the master withholds the packets
+		// after it (reader waiting for the network); the caller cancels; only then
+		// does the master send more packets, which the reader receives after the
+		// cancellation but before anybody closed the connection; then the handler
+		// is released
+		ob := &attemptObs{Spec: spec, Reader: "unknown", Handler: "blocked"}
+		plan := sim.Plan(l, start)
+		holdAt := len(plan)
+		seen := -1
+		for i, pk := range plan {
+			if pk.CommitOf >= 0 {
+				seen++
+				if seen == spec.At {
+					holdAt = i + 1
+					break
+				}
+			}
+		}
+		scr := &sim.Script{End: sim.EndIdle, Faults: map[int]sim.Fault{holdAt: {Kind: sim.FHold}}}
+		s.M.SetScripts(scr)
+		hs := run.NoFaults()
+		hs.BlockAt = spec.At
+		hs.InlineError = o.InlineError
+		rn := s.Start(hs, nil)
+		blocked := false
+		select {
+		case <-s.Blocked():
+			blocked = true
+		case <-rn.Done():
+		case <-time.After(maxWait):
+		}
+		if blocked {
+			for i := 0; i < 4000; i++ {
+				conns := s.M.Conns()
+				if len(conns) > 0 && conns[len(conns)-1].Snapshot().HoldReached && readerState(run.LibGoroutines(nil)) == "network" {
+					break
+				}
+				time.Sleep(250 * time.Microsecond)
+			}
+			ob.Reader = readerState(run.LibGoroutines(nil))
+			ob.Reached = true
+			s.Cancel()
+			s.M.Release() // late packets
+			for i := 0; i < 400; i++ { // let the reader meet them
+				if st := readerState(run.LibGoroutines(nil)); st != "network" {
+					break
+				}
+				time.Sleep(100 * time.Microsecond)
+			}
+		} else {
+			s.Cancel()
+		}
 		s.ReleaseHandler()
 		ob.Res = rn.Wait(maxWait)
 		finishObs(s, ob, o)
